@@ -5,6 +5,11 @@
 mod build;
 mod c02;
 mod c04;
+mod c08;
+mod c18;
+mod c20;
+mod faults;
+mod history;
 mod c11;
 mod c12;
 mod c15;
